@@ -133,6 +133,13 @@ def rax_selector(facts, o):
                 truth = (val == 1) if op == "==" else True
                 eq = truth if t[1] == "Eq" else not truth
                 return t[3][1], eq
+        # `match rax { 60 => .., _ => .. }`: the register value itself is the scrutinee
+        x = U.strip(t)
+        if x[0] == "reg" and x[1] == 64 and U.reg_name(facts, x[2]) == "RAX":
+            if op == "==" and isinstance(val, int):
+                return val, True
+            if op == "!=" and isinstance(val, tuple) and len(val) == 1:
+                return val[0], False
     return None
 
 
